@@ -13,6 +13,7 @@ From P7 Require StreamsGen.
 From P7 Require FilesGen.
 From P7 Require Crc32 Trace Enc SigGen.
 From P7gen Require ArchiveinfoSig.
+From P7 Require EncHdrGen.
 From P7gen Require ArchiveinfoRecords.
 Open Scope Z_scope.
 
@@ -322,3 +323,26 @@ Theorem C07_gen_SignatureHeader_write_skeleton_is_skeleton32 :
   ArchiveinfoSig.SignatureHeader_write_skeleton ArchiveinfoSig.SignatureHeader_init = Ok Trace.skeleton32.
 Proof. exact (SigGen.gen_sig_write_skeleton ArchiveinfoSig.SignatureHeader_init eq_refl eq_refl). Qed.
 Print Assumptions C07_gen_SignatureHeader_write_skeleton_is_skeleton32.
+
+(* ---- third wave (stage 4, part 3): UnpackInfo.write(file, with_crcs=True) and HeaderStreamsInfo.write as translated on this run
+   are Enc.write_unpackinfo_crcs and, for the object Header._encode_header builds (one packed stream, no packed CRC, one folder
+   carrying the CRC-32 of the plain header), Enc.hdr_descriptor: the part of C20's layout theorem between the packed header and
+   the signature header. ---- *)
+Theorem C07_gen_UnpackInfo_write_crcs_is_model : forall self : ArchiveinfoRecords.UnpackInfo,
+  ArchiveinfoRecords.UnpackInfo_write self true =
+  if ArchiveinfoRecords.UnpackInfo_numfolders self =? zlen (ArchiveinfoRecords.UnpackInfo_folders self)
+  then Enc.write_unpackinfo_crcs (map FolderGen.folder_of (ArchiveinfoRecords.UnpackInfo_folders self)) else Err EOther.
+Proof. exact EncHdrGen.gen_UnpackInfo_write_crcs_eq_model. Qed.
+Print Assumptions C07_gen_UnpackInfo_write_crcs_is_model.
+
+Theorem C07_gen_HeaderStreamsInfo_write_is_hdr_descriptor :
+  forall (p : ArchiveinfoRecords.PackInfo) (g : ArchiveinfoRecords.Folder) (so : option ArchiveinfoRecords.SubstreamsInfo)
+         packpos hpacksize hrawlen hpcrc hrawcrc (hcoders : list coder),
+  ArchiveinfoRecords.PackInfo_enable_digests p = false ->
+  PackInfoGen.pack_of p = mkPack packpos 1 [hpacksize] [] [hpcrc] ->
+  FolderGen.folder_of g = Header.mkFolder hcoders (Enc.mk_bonds (zlen hcoders)) [] [hrawlen] true (Some hrawcrc) ->
+  (do (o, out) <- ArchiveinfoRecords.HeaderStreamsInfo_write
+                    (ArchiveinfoRecords.mkHeaderStreamsInfo (Some p) (Some (ArchiveinfoRecords.mkUnpackInfo 1 [g] None)) so); Ok out)
+  = Enc.hdr_descriptor packpos hcoders hpacksize hrawlen hpcrc hrawcrc.
+Proof. exact EncHdrGen.gen_HeaderStreamsInfo_write_descriptor. Qed.
+Print Assumptions C07_gen_HeaderStreamsInfo_write_is_hdr_descriptor.
